@@ -68,7 +68,7 @@ Section Html.
   Arguments HErr {A} e.
   Arguments HPanic {A}.
 
-  Record hstate := { hs_stack : fstack; hs_added : list N }.      (* fullname_serializer, added_default *)
+  Record hstate := { hs_stack : fstack; hs_added : list N; hs_top : N }.      (* fullname_serializer, added_default, the node being serialized *)
 
   (* the table the serialiser starts from: the declarations in scope at the node, without a default namespace that is not the
      node's own (it is never written on the node, OPrefix below) *)
@@ -77,7 +77,7 @@ Section Html.
     {| hs_stack := fs_new (filter (fun d => negb (N.eqb (fst d) ep)
                                             || match own with Some ns => N.eqb (snd d) ns | None => false end)
                                   (in_scope nm z));
-       hs_added := [] |}.
+       hs_added := []; hs_top := z_slot z |}.
 
   Definition element_of (z : zipper) : option nameid := match z_val z with VElement n => Some n | _ => None end.
 
@@ -98,12 +98,12 @@ Section Html.
             | [] => (fs_push stack1 [(ep, ns)], z_slot z :: hs_added st)
             | _ => (add_empty_prefix ep stack1 ns, hs_added st)
             end in
-          HOk ({| hs_stack := stack2; hs_added := added |},
+          HOk ({| hs_stack := stack2; hs_added := added; hs_top := hs_top st |},
                tok false ([60] ++ n_local nm name ++ [32] ++ s_xmlns ++ [61; 34] ++ n_ns_str nm ns ++ [34]))
         else
           match element_fullname nm stack1 name with
           | None => HErr HMissingPrefix
-          | Some fn => HOk ({| hs_stack := stack1; hs_added := hs_added st |}, tok false ([60] ++ fn))
+          | Some fn => HOk ({| hs_stack := stack1; hs_added := hs_added st; hs_top := hs_top st |}, tok false ([60] ++ fn))
           end
     | OStartTagClose => HOk (st, tok false [62])
     | OEndTag name =>
@@ -118,7 +118,7 @@ Section Html.
             let added := match hs_added st with a :: _ => N.eqb a (z_slot z) | [] => false end in
             let has_decls := match effective_declarations z name with [] => false | _ => true end in
             HOk ({| hs_stack := fs_pop (hs_stack st) (added || has_decls);
-                    hs_added := if added then tl (hs_added st) else hs_added st |}, t)
+                    hs_added := if added then tl (hs_added st) else hs_added st; hs_top := hs_top st |}, t)
         end
     | OPrefix p ns =>
         match element_of z with
@@ -146,7 +146,9 @@ Section Html.
               HOk (st, tok true (fn ++ [61; 34] ++ value ++ [34]))
         end
     | OText s =>
-        let parent_element := match parent z with Some p => element_of p | None => None end in
+        (* the parent of the node that is being serialized is not part of the output *)
+        let parent_element := if N.eqb (z_slot z) (hs_top st) then None
+                              else match parent z with Some p => element_of p | None => None end in
         let value :=
           match parent_element with
           | Some pn =>
